@@ -36,11 +36,11 @@ Lemma dec_aux_val : forall f n acc, n < 2 ^ N.of_nat f -> f <> 0%nat ->
 Proof.
   induction f as [|f IH]; intros n acc Hn Hf; [contradiction|].
   cbn [dec_aux]. destruct (N.ltb_spec n 10) as [Hlt|Hge].
-  - unfold val_digits. simpl. f_equal. rewrite N.mod_small by exact Hlt. lia.
+  - unfold val_digits. cbn [fold_left]. f_equal. rewrite N.mod_small by exact Hlt. lia.
   - assert (Hf' : f <> 0%nat).
     { intro E. subst f. simpl in Hn. lia. }
     rewrite IH; [|  | exact Hf'].
-    + unfold val_digits. simpl. f_equal.
+    + unfold val_digits. cbn [fold_left]. f_equal.
       pose proof (N.div_mod n 10 ltac:(discriminate)) as Hdm.
       remember (n / 10) as q eqn:Eq. remember (n mod 10) as r eqn:Er. clear Eq Er. lia.
     + rewrite Nat2N.inj_succ, N.pow_succ_r' in Hn.
@@ -212,15 +212,18 @@ Qed.
 Lemma spec_flat_name_chars : forall c, Forall name_char (spec_flat_name c).
 Proof.
   intro c. unfold spec_flat_name.
-  repeat (apply Forall_app; split); try apply spec_axis_chars;
-    constructor; try constructor; right; right; reflexivity.
+  assert (Hu : Forall name_char [95]) by (constructor; [right; right; reflexivity | constructor]).
+  apply Forall_app; split; [apply spec_axis_chars|].
+  apply Forall_app; split; [exact Hu|].
+  apply Forall_app; split; [apply spec_axis_chars|].
+  apply Forall_app; split; [exact Hu | apply spec_axis_chars].
 Qed.
 
 Lemma keep_name : forall l, Forall name_char l -> l <> [] -> keep_comp l = true.
 Proof.
-  intros l H Hne. destruct l as [|x l]; [contradiction|]. simpl.
+  intros l H Hne. destruct l as [|x l]; [contradiction|]. unfold keep_comp.
   apply negb_true_iff. apply bytes_eqb_neq. intro E. inversion E; subst.
-  inversion H; subst. destruct H2 as [[H2 H3]|[H2|H2]]; lia.
+  inversion H as [|? ? Hx Hl]; subst. destruct Hx as [[Ha Hb]|[Ha|Ha]]; lia.
 Qed.
 
 Lemma spec_axis_nonempty : forall a b, spec_axis a b <> [].
